@@ -63,10 +63,6 @@ Proof. apply Forall_forall. intros c Hc. apply repeat_spec in Hc. subst. apply i
 Lemma inert_blank t : Forall (fun c => is_space c = true) t -> Forall inert t.
 Proof. intros H. eapply Forall_impl; [|exact H]. intros c. apply inert_space. Qed.
 
-Definition vlen (sty : styles) (s : str) : Z := zlen (plain_of sty false s).
-Lemma vlen_le sty s : vlen sty s <= zlen s.
-Proof. unfold vlen, zlen. pose proof (plain_of_le sty false s). lia. Qed.
-
 (* ---- the plain formatter ---- *)
 Lemma remove_format_plain_of f m x : f_kind f <> FNull -> remove_format f m = Ok x ->
   snd x = plain_of (f_styles f) (ends_with_bsl m) m /\ f_kind (fst x) = f_kind f /\ f_styles (fst x) = f_styles f.
@@ -78,21 +74,6 @@ Lemma emit_plain_of f m x : f_kind f = FPlain -> emit f m = Ok x ->
   snd x = plain_of (f_styles f) (ends_with_bsl m) m /\ f_kind (fst x) = FPlain /\ f_styles (fst x) = f_styles f.
 Proof.
   intros Hk H. unfold emit in H. rewrite Hk in H. apply remove_format_plain_of in H; [|congruence]. now rewrite Hk in H.
-Qed.
-(* a text ended by a line break *)
-Lemma plain_of_body sty body : plain_of sty (ends_with_bsl (body ++ [10%N])) (body ++ [10%N]) = plain_of sty false body ++ [10%N].
-Proof. rewrite ends_snoc. change (N.eqb 10 BSL) with false. apply plain_of_snoc, inert_nl. Qed.
-
-(* the lines of the text behind the first: within b before, within b after *)
-Lemma okr_plain sty b1 b body : 0 <= b ->
-  zlen (plain_of sty false (hd [] (split_on 10%N body))) <= b1 -> Forall (fun l => zlen l <= b) (tl (split_on 10%N body)) ->
-  okr b1 b (plain_of sty false body).
-Proof.
-  intros Hb H1 H2. apply okr_of_lines; change 10%N with NL; rewrite plain_of_lines; change NL with 10%N.
-  - destruct (split_on 10%N body) as [|l ls] eqn:E; [destruct (split_on_nonempty _ _ E)|]. exact H1.
-  - destruct (split_on 10%N body) as [|l ls] eqn:E; [constructor|]. cbn [map tl] in *.
-    apply Forall_forall. intros x Hx. apply in_map_iff in Hx. destruct Hx as (y & <- & Hy). rewrite Forall_forall in H2.
-    specialize (H2 y Hy). pose proof (plain_of_le sty false y). unfold zlen in *. lia.
 Qed.
 
 (* ---- one element: the label line ---- *)
@@ -127,22 +108,60 @@ Proof.
     apply okr_rstrip, okr_split in Hj. lia.
 Qed.
 
-(* ... hence its visible width: the formatter deletes from the line at least what it deletes from the label alone *)
-Lemma lab_first_fits sty a0 W off ind label text padding aligned raw :
-  elem_raw W off ind (zlen (plain_of sty a0 label)) (ELab label text padding aligned) = Ok raw -> no_nl label ->
-  exists body, raw = body ++ [10%N] /\ zlen (plain_of sty false (hd [] (split_on 10%N body))) <= W - 1.
+(* ---- one element, for the rendering (p = post_unescape) and for the rendering before unescape (p = post_id) ---- *)
+Section Element.
+Variable p : post.
+Variable sty : styles.
+
+(* a text ended by a line break *)
+Lemma render_body body : render p sty false (body ++ [10%N]) = render p sty false body ++ [10%N].
+Proof. apply render_snoc, inert_nl. Qed.
+
+(* the lines of the text behind the first: within b before, within b after *)
+Lemma okr_render b1 b body : 0 <= b ->
+  zlen (render p sty false (hd [] (split_on 10%N body))) <= b1 -> Forall (fun l => zlen l <= b) (tl (split_on 10%N body)) ->
+  okr b1 b (render p sty false body).
 Proof.
-  intros H Hlab. set (vis := zlen (plain_of sty a0 label)) in *.
-  destruct (lab_first_line _ _ _ _ _ _ _ _ _ H (zlen_nonneg _) Hlab) as (body & t1 & j1 & -> & EF & Ht1 & Hj). cbv zeta in *.
+  intros Hb H1 H2. apply okr_of_lines; change 10%N with NL; rewrite render_lines; change NL with 10%N.
+  - destruct (split_on 10%N body) as [|l ls] eqn:E; [destruct (split_on_nonempty _ _ E)|]. exact H1.
+  - destruct (split_on 10%N body) as [|l ls] eqn:E; [constructor|]. cbn [map tl] in *.
+    apply Forall_forall. intros x Hx. apply in_map_iff in Hx. destruct Hx as (y & <- & Hy). rewrite Forall_forall in H2.
+    specialize (H2 y Hy). pose proof (render_le p sty false y). unfold zlen in *. lia.
+Qed.
+
+(* the label line: the formatter deletes from the line at least what it deletes from the label alone *)
+Lemma lab_first_fits a0 W off ind vis label text padding aligned raw :
+  elem_raw W off ind vis (ELab label text padding aligned) = Ok raw -> 0 <= vis -> zlen (render p sty a0 label) <= vis -> no_nl label ->
+  exists body, raw = body ++ [10%N] /\ zlen (render p sty false (hd [] (split_on 10%N body))) <= W - 1.
+Proof.
+  intros H Hvis Hv Hlab.
+  destruct (lab_first_line _ _ _ _ _ _ _ _ _ H Hvis Hlab) as (body & t1 & j1 & -> & EF & Ht1 & Hj). cbv zeta in *.
   set (to := Z.max (if aligned then off - Z.of_nat ind else 0) (vis + Z.of_nat padding)) in *.
   exists body. split; [reflexivity|]. set (F := hd [] (split_on 10%N body)) in *.
-  pose proof (plain_of_inert_suffix sty false F t1 (inert_blank _ Ht1)) as E1. rewrite EF in E1.
-  pose proof (plain_of_context_le sty a0 (spaces ind) label (spaces (Z.to_nat (to - vis)) ++ j1) (inert_spaces ind)) as E2.
+  pose proof (render_inert_suffix p sty false F t1 (inert_blank _ Ht1)) as E1. rewrite EF in E1.
+  pose proof (render_context_le p sty a0 (spaces ind) label (spaces (Z.to_nat (to - vis)) ++ j1) (inert_spaces ind)) as E2.
   assert (Hsp : forall n, length (spaces n) = n) by (intros; apply repeat_length).
   rewrite E1 in E2. rewrite !app_length, !Hsp in E2.
-  assert (vis + Z.of_nat padding <= to) by (subst to; lia).
-  assert (0 <= vis) by apply zlen_nonneg. unfold zlen in *. fold vis in E2. lia.
+  assert (vis + Z.of_nat padding <= to) by (subst to; lia). unfold zlen in *. lia.
 Qed.
+
+(* the text of an element, rendered: ended by a line break, every line within W - 1 - provided the label rendered on its
+   own is at most as long as the alignment was told (vis) *)
+Lemma elem_raw_render_fits a0 W off ind vis e raw :
+  elem_raw W off ind vis e = Ok raw -> 1 <= W -> 0 <= vis -> zlen (render p sty a0 (elem_label e)) <= vis -> no_nl (elem_label e) ->
+  exists body, raw = body ++ [10%N] /\ render p sty false raw = render p sty false body ++ [10%N]
+    /\ okr (W - 1) (W - 1) (render p sty false body).
+Proof.
+  intros H HW Hvis Hv Hlab.
+  destruct (elem_raw_fits _ _ _ _ _ _ H HW Hvis Hlab) as (body & -> & Hb). exists body. split; [reflexivity|]. split; [apply render_body|].
+  apply okr_split in Hb. destruct Hb as [Hb1 Hb2]. apply okr_render; [lia| |exact Hb2].
+  destruct e as [t|label text padding aligned|]; cbn [first_bound elem_label] in *.
+  - pose proof (render_le p sty false (hd [] (split_on 10%N body))). unfold zlen in *. lia.
+  - destruct (lab_first_fits _ _ _ _ _ _ _ _ _ _ H Hvis Hv Hlab) as (body' & Eb & HF).
+    apply app_inj_tail in Eb. destruct Eb as [<- _]. exact HF.
+  - pose proof (render_le p sty false (hd [] (split_on 10%N body))). unfold zlen in *. lia.
+Qed.
+End Element.
 
 (* ---- one element through the plain formatter ---- *)
 Lemma render_elem_plain_fits W off f ind e x : f_kind f = FPlain -> 1 <= W -> no_nl (elem_label e) ->
@@ -150,27 +169,23 @@ Lemma render_elem_plain_fits W off f ind e x : f_kind f = FPlain -> 1 <= W -> no
   f_kind (fst x) = FPlain /\ f_styles (fst x) = f_styles f /\ exists p, snd x = p ++ [10%N] /\ okr (W - 1) (W - 1) p.
 Proof.
   intros Hk HW Hlab H.
-  assert (Hgen : forall f0 raw b1, f_kind f0 = FPlain -> f_styles f0 = f_styles f -> emit f0 raw = Ok x ->
-            (exists body, raw = body ++ [10%N] /\ zlen (plain_of (f_styles f) false (hd [] (split_on 10%N body))) <= W - 1
-                          /\ okr b1 (W - 1) body) ->
+  assert (Hgen : forall f0 raw a0 vis, f_kind f0 = FPlain -> f_styles f0 = f_styles f -> emit f0 raw = Ok x ->
+            elem_raw W off ind vis e = Ok raw -> 0 <= vis -> zlen (plain_of (f_styles f) a0 (elem_label e)) <= vis ->
             f_kind (fst x) = FPlain /\ f_styles (fst x) = f_styles f /\ exists p, snd x = p ++ [10%N] /\ okr (W - 1) (W - 1) p).
-  { intros f0 raw b1 Hk0 Hs0 He (body & -> & HF & Hb). apply emit_plain_of in He; [|exact Hk0]. destruct He as (E & E1 & E2).
-    split; [exact E1|]. split; [congruence|]. rewrite E, Hs0, plain_of_body. eexists. split; [reflexivity|].
-    apply okr_plain; [lia|exact HF|]. apply okr_split in Hb. tauto. }
+  { intros f0 raw a0 vis Hk0 Hs0 He Er Hvis Hv.
+    destruct (elem_raw_render_fits post_unescape (f_styles f) a0 _ _ _ _ _ _ Er HW Hvis Hv Hlab) as (body & -> & Eb & Hb).
+    apply emit_plain_of in He; [|exact Hk0]. destruct He as (E & E1 & E2).
+    split; [exact E1|]. split; [congruence|]. rewrite E, Hs0, ends_snoc. change (N.eqb 10 BSL) with false.
+    rewrite plain_of_render, Eb. eexists. split; [reflexivity|exact Hb]. }
   destruct e as [t|label text padding aligned|]; unfold render_elem in H.
   - destruct (elem_raw W off ind 0 (EPara t)) as [raw|k] eqn:Er; [|discriminate]. cbn [bind] in H.
-    destruct (elem_raw_fits _ _ _ _ _ _ Er HW (Z.le_refl 0) Hlab) as (body & -> & Hb). cbn [first_bound] in Hb.
-    apply (Hgen f _ (W - 1) Hk eq_refl H). exists body. split; [reflexivity|]. split; [|exact Hb].
-    apply okr_split in Hb. pose proof (plain_of_le (f_styles f) false (hd [] (split_on 10%N body))). unfold zlen in *. lia.
+    apply (Hgen f raw false 0 Hk eq_refl H Er (Z.le_refl 0)). cbn. lia.
   - destruct (remove_format f label) as [x1|k] eqn:E1; [|discriminate]. cbn [bind] in H.
     apply remove_format_plain_of in E1; [|congruence]. destruct E1 as (Ev & Ek1 & Es1). rewrite Ev in H.
     destruct (elem_raw W off ind _ (ELab label text padding aligned)) as [raw|k] eqn:Er; [|discriminate]. cbn [bind] in H.
-    cbn [elem_label] in Hlab.
-    destruct (lab_first_fits _ _ _ _ _ _ _ _ _ _ Er Hlab) as (body & -> & HF).
-    destruct (elem_raw_fits _ _ _ _ _ _ Er HW (zlen_nonneg _) Hlab) as (body' & Eb & Hb).
-    apply app_inj_tail in Eb. destruct Eb as [<- _].
-    eapply (Hgen (fst x1) _ _ (eq_trans Ek1 Hk) Es1 H). exists body. split; [reflexivity|]. split; [exact HF|exact Hb].
-  - cbn [elem_raw bind] in H. apply (Hgen f _ (W - 1) Hk eq_refl H). exists []. split; [reflexivity|]. cbn. lia.
+    apply (Hgen (fst x1) raw (ends_with_bsl label) _ (eq_trans Ek1 Hk) Es1 H Er (zlen_nonneg _)). cbn [elem_label]. lia.
+  - destruct (elem_raw W off ind 0 EEmpty) as [raw|k] eqn:Er; [|discriminate]. cbn [bind] in H.
+    apply (Hgen f raw false 0 Hk eq_refl H Er (Z.le_refl 0)). cbn. lia.
 Qed.
 
 (* ---- the page ---- *)
@@ -448,3 +463,145 @@ Qed.
 Theorem colorize_line_by_line sty sk m sk' out : colorize sty false sk m = Ok (sk', out) -> ends_with_bsl m = false ->
   split_on 10%N out = map (plain_of sty false) (split_on 10%N m).
 Proof. intros H E. apply colorize_plain_of in H. rewrite E in H. subst out. apply plain_of_lines. Qed.
+
+(* ================= the ANSI formatter, sharper: backslashes allowed in the texts, not in the labels ================= *)
+(* The decorated colorize keeps the stack of the undecorated one and its visible text is a deletion of the undecorated
+   output before unescape (MarkupShrinkLemmas.colorize_visible): what the SGR sequences can do is keep a backslash the plain
+   formatter deletes.  On the line of a label that matters only when the label holds a backslash (page_fits_ansi_refuted
+   in Props/C13.v). *)
+Lemma P_spaces (P : N -> Prop) n : P 32%N -> Forall P (spaces n).
+Proof. intros H. apply Forall_forall. intros c Hc. apply repeat_spec in Hc. now subst. Qed.
+Lemma P_rstrip (P : N -> Prop) s : Forall P s -> Forall P (rstrip s).
+Proof. intros H. destruct (rstrip_prefix s) as [t Ht]. rewrite Ht in H. apply Forall_app in H. tauto. Qed.
+Lemma P_join (P : N -> Prop) prefix : P 10%N -> Forall P prefix -> forall lines, Forall (Forall P) lines -> Forall P (join_lines prefix lines).
+Proof.
+  intros Hn Hp. induction lines as [|l r IH]; intros H; [constructor|]. inversion H as [|? ? H1 H2]; subst.
+  destruct r as [|l2 r]; [exact H1|].
+  change (join_lines prefix (l :: l2 :: r)) with (l ++ 10%N :: prefix ++ join_lines prefix (l2 :: r)).
+  apply Forall_app. split; [exact H1|]. constructor; [exact Hn|]. apply Forall_app. split; [exact Hp|apply IH, H2].
+Qed.
+Lemma P_wrap (P : N -> Prop) text w ls : P 32%N -> Forall P text -> wrap text w = Ok ls -> Forall (Forall P) ls.
+Proof.
+  intros Hs Ht H. eapply wrap_lines_chars_lemma; [exact H|]. unfold munge. apply Forall_forall. intros c Hc.
+  apply in_map_iff in Hc. destruct Hc as (x & <- & Hx). destruct (tw_space x); [exact Hs|].
+  rewrite Forall_forall in Ht. auto.
+Qed.
+Lemma elem_raw_P (P : N -> Prop) W off ind vis e raw : P 32%N -> P 10%N -> Forall P (elem_label e) -> Forall P (elem_text e) ->
+  elem_raw W off ind vis e = Ok raw -> Forall P raw.
+Proof.
+  intros Hs Hn Hl Ht H. assert (Hnl : Forall P [10%N]) by (constructor; [exact Hn|constructor]).
+  destruct e as [t|label text padding aligned|]; cbn [elem_raw elem_label elem_text] in *.
+  - destruct (wrap t _) as [lines|k] eqn:Ew; [|discriminate]. cbn [bind] in H. injection H as <-.
+    apply Forall_app. split; [apply P_spaces, Hs|]. apply Forall_app. split; [|exact Hnl].
+    apply P_rstrip, P_join; [exact Hn|apply P_spaces, Hs|exact (P_wrap P _ _ _ Hs Ht Ew)].
+  - cbv zeta in H. destruct (wrap text _) as [lines|k] eqn:Ew; [|discriminate]. cbn [bind] in H. injection H as <-.
+    apply Forall_app. split; [|exact Hnl]. apply P_rstrip. apply Forall_app. split; [apply P_spaces, Hs|].
+    apply Forall_app. split; [unfold ljust; apply Forall_app; split; [exact Hl|apply P_spaces, Hs]|].
+    apply P_rstrip, P_join; [exact Hn|apply Forall_app; split; apply P_spaces, Hs|exact (P_wrap P _ _ _ Hs Ht Ew)].
+  - injection H as <-. exact Hnl.
+Qed.
+
+Lemma deletes_snoc_nl : forall x v, deletes (x ++ [NL]) v -> exists q, v = q ++ [NL] /\ deletes x q.
+Proof.
+  induction x as [|c x IH]; intros v H; cbn [app] in H.
+  - inversion H as [|? ? y Hy|? ? ? Hc Hy]; subst; [|contradiction]. inversion Hy; subst. exists []. split; [reflexivity|constructor].
+  - inversion H as [|? ? y Hy|? ? ? Hc Hy]; subst.
+    + destruct (IH _ Hy) as (q & -> & Hq). exists (c :: q). split; [reflexivity|now constructor].
+    + destruct (IH _ Hy) as (q & -> & Hq). exists q. split; [reflexivity|now constructor].
+Qed.
+
+Lemma emit_ansi_visible f raw x : is_ansi f -> no_esc raw -> emit f raw = Ok x ->
+  is_ansi (fst x) /\ f_styles (fst x) = f_styles f
+  /\ exists v, strips (snd x) v /\ deletes (wout_of (f_styles f) (ends_with_bsl raw) raw) v.
+Proof.
+  unfold is_ansi, emit, format. destruct (f_kind f) eqn:Ek; try contradiction. intros _ Hr H.
+  destruct (colorize (f_styles f) true (f_stack f) raw) as [[sk o1]|k] eqn:Ec; [|discriminate]. cbn [bind fst snd] in H.
+  injection H as <-. cbn [fst snd f_kind f_styles]. split; [exact I|]. split; [reflexivity|].
+  apply colorize_visible in Ec; [|exact Hr]. tauto.
+Qed.
+
+Definition clean_elem (x : nat * elem) : Prop :=
+  no_esc (elem_label (snd x)) /\ no_bsl (elem_label (snd x)) /\ no_esc (elem_text (snd x)).
+(* no ESC in any label or text of the layout, no backslash in any label *)
+Definition clean_layout (l : layout) : Prop := Forall clean_elem l.
+
+Lemma render_elem_ansi_fits W off f ind e x : is_ansi f -> 1 <= W -> no_nl (elem_label e) -> clean_elem (ind, e) ->
+  render_elem W off f ind e = Ok x ->
+  is_ansi (fst x) /\ exists v q, strips (snd x) v /\ v = q ++ [10%N] /\ okr (W - 1) (W - 1) q.
+Proof.
+  intros Hk HW Hlab (Hle & Hlb & Hte) H. cbn [snd] in Hle, Hlb, Hte.
+  assert (Hgen : forall f0 raw a0 vis, is_ansi f0 -> emit f0 raw = Ok x ->
+            elem_raw W off ind vis e = Ok raw -> 0 <= vis -> zlen (render post_id (f_styles f0) a0 (elem_label e)) <= vis ->
+            is_ansi (fst x) /\ exists v q, strips (snd x) v /\ v = q ++ [10%N] /\ okr (W - 1) (W - 1) q).
+  { intros f0 raw a0 vis Hk0 He Er Hvis Hv.
+    assert (Hr : no_esc raw).
+    { apply (elem_raw_P (fun c => c <> ESC) W off ind vis e raw); [discriminate|discriminate|exact Hle|exact Hte|exact Er]. }
+    destruct (elem_raw_render_fits post_id (f_styles f0) a0 _ _ _ _ _ _ Er HW Hvis Hv Hlab) as (body & -> & Eb & Hb).
+    destruct (emit_ansi_visible _ _ _ Hk0 Hr He) as (Hk1 & _ & v & Sv & Dv). split; [exact Hk1|].
+    rewrite ends_snoc in Dv. change (N.eqb 10 BSL) with false in Dv.
+    change (wout_of (f_styles f0) false (body ++ [10%N])) with (render post_id (f_styles f0) false (body ++ [10%N])) in Dv.
+    rewrite Eb in Dv. apply deletes_snoc_nl in Dv. destruct Dv as (q & -> & Dq).
+    exists (q ++ [10%N]), q. split; [exact Sv|]. split; [reflexivity|]. eapply okr_deletes; [exact Dq|exact Hb]. }
+  destruct e as [t|label text padding aligned|]; unfold render_elem in H.
+  - destruct (elem_raw W off ind 0 (EPara t)) as [raw|k] eqn:Er; [|discriminate]. cbn [bind] in H.
+    apply (Hgen f raw false 0 Hk H Er (Z.le_refl 0)). cbn. lia.
+  - destruct (remove_format f label) as [x1|k] eqn:E1; [|discriminate]. cbn [bind] in H.
+    assert (Hn : f_kind f <> FNull) by (unfold is_ansi in Hk; destruct (f_kind f); [discriminate|contradiction|contradiction]).
+    apply remove_format_plain_of in E1; [|exact Hn]. destruct E1 as (Ev & Ek1 & Es1). rewrite Ev in H.
+    destruct (elem_raw W off ind _ (ELab label text padding aligned)) as [raw|k] eqn:Er; [|discriminate]. cbn [bind] in H.
+    assert (Hk1 : is_ansi (fst x1)) by (unfold is_ansi in *; now rewrite Ek1).
+    apply (Hgen (fst x1) raw (ends_with_bsl label) _ Hk1 H Er (zlen_nonneg _)). cbn [elem_label]. rewrite Es1.
+    (* the label holds no backslash: nothing to unescape *)
+    assert (E : plain_of (f_styles f) (ends_with_bsl label) label = render post_id (f_styles f) (ends_with_bsl label) label).
+    { rewrite plain_of_render. unfold render at 1. cbn [pu post_unescape]. apply unescape_id.
+      eapply deletes_P; [apply (render_deletes post_id)|exact Hlb]. }
+    rewrite E. lia.
+  - destruct (elem_raw W off ind 0 EEmpty) as [raw|k] eqn:Er; [|discriminate]. cbn [bind] in H.
+    apply (Hgen f raw false 0 Hk H Er (Z.le_refl 0)). cbn. lia.
+Qed.
+
+Lemma render_all_ansi_fits W off : 1 <= W -> forall l f out x, is_ansi f -> one_line_labels l -> clean_layout l ->
+  render_all W off f l out = Ok x ->
+  (exists V, strips out V /\ lines_within (W - 1) V) -> exists V, strips (snd x) V /\ lines_within (W - 1) V.
+Proof.
+  intros HW. induction l as [|[ind e] r IH]; intros f out x Hk Hl Hc H Hout; cbn [render_all] in H.
+  - injection H as <-. exact Hout.
+  - inversion Hl as [|? ? Hl1 Hl2]; subst. inversion Hc as [|? ? Hc1 Hc2]; subst. cbn [snd] in Hl1.
+    destruct (render_elem W off f ind e) as [y|k] eqn:Ee; [|discriminate]. cbn [bind] in H.
+    destruct (render_elem_ansi_fits _ _ _ _ _ _ Hk HW Hl1 Hc1 Ee) as (Hk' & v & q & Sv & -> & Hq).
+    apply IH in H; [exact H|exact Hk'|exact Hl2|exact Hc2|].
+    destruct Hout as (V & SV & HV). exists (V ++ q ++ [10%N]). split; [apply strips_app; assumption|].
+    right. destruct HV as [->|(p0 & -> & Hp)].
+    + exists q. auto.
+    + exists (p0 ++ 10%N :: q). split; [now rewrite <- !app_assoc|]. now apply okr_app_nl.
+Qed.
+
+(* Whenever a page whose labels and texts hold no ESC and whose labels hold no backslash renders through the ANSI
+   formatter, the visible text of every line (SGR sequences removed) is at most W - 1 long. *)
+Theorem page_fits_ansi_clean_lemma W f l s : is_ansi f -> 1 <= W -> one_line_labels l -> clean_layout l ->
+  render_page W f l = Ok s -> Forall (fun ln => zlen (strip_sgr ln) <= W - 1) (split_on 10%N s).
+Proof.
+  intros Hk HW Hl Hc H. unfold render_page in H.
+  destruct (align f l 0) as [[f1 off]|k] eqn:Ea; [|discriminate]. cbn [bind fst snd] in H.
+  destruct (align_as_plain _ _ _ _ _ Hk Ea) as [_ Hk1].
+  destruct (render_all W off f1 l []) as [x|k] eqn:E; [|discriminate]. cbn [bind] in H. injection H as <-.
+  destruct (render_all_ansi_fits W off HW l f1 [] x Hk1 Hl Hc E) as (V & SV & HV).
+  { exists []. split; [apply strips_nil|left; reflexivity]. }
+  apply strips_sgr_strip in SV. apply lines_within_split in HV; [|lia]. rewrite <- SV, strip_sgr_lines in HV.
+  apply Forall_forall. intros ln Hln. rewrite Forall_forall in HV. apply HV, in_map, Hln.
+Qed.
+
+Lemma good_clean l : good_layout l -> clean_layout l.
+Proof.
+  intros H. eapply Forall_impl; [|exact H]. intros x [H1 H2]. split; [apply good_no_esc, H1|]. split; [apply good_no_bsl, H1|apply good_no_esc, H2].
+Qed.
+
+(* clean_layout, decided *)
+Definition clean_layoutb (l : layout) : bool :=
+  forallb (fun x => forallb goodb (elem_label (snd x)) && forallb (fun c => negb (N.eqb c ESC)) (elem_text (snd x))) l.
+Lemma clean_layoutb_ok l : clean_layoutb l = true -> clean_layout l.
+Proof.
+  intros H. apply Forall_forall. intros x Hx. unfold clean_layoutb in H. rewrite forallb_forall in H. specialize (H x Hx).
+  apply andb_prop in H. destruct H as [H1 H2]. apply goodb_good in H1. split; [apply good_no_esc, H1|]. split; [apply good_no_bsl, H1|].
+  apply Forall_forall. intros c Hc. rewrite forallb_forall in H2. specialize (H2 c Hc). intros ->. discriminate.
+Qed.
